@@ -45,6 +45,7 @@ type FuncReport struct {
 	Trusted    []string
 	Assumed    []string
 	NoDec      []int
+	Unbound    []string // call-site clauses (at call F#k ...) whose call site does not exist in the code
 	MapRanges  int
 	Paths      int
 	Ctx        *FnCtx
@@ -181,6 +182,18 @@ func (e *Engine) verifyFunc(fi *FuncInfo, sweep bool) *FuncReport {
 		rep.NoDec = append(rep.NoDec, k)
 	}
 	sort.Ints(rep.NoDec)
+	if c.contract != nil {
+		sites := map[string]bool{}
+		for _, n := range c.callOrd {
+			sites[n] = true
+		}
+		for name := range c.contract.Inspects {
+			if !sites[name] {
+				rep.Unbound = append(rep.Unbound, name)
+			}
+		}
+		sort.Strings(rep.Unbound)
+	}
 	rep.Imprecise = c.imprecise
 	rep.MapRanges = c.mapRangeLoops
 	rep.Paths = c.pathsToReturn
@@ -276,6 +289,10 @@ func cmdFunc(args []string) {
 			}
 			for _, d := range rep.Dropped {
 				fmt.Printf("  DROPPED loop clause at %s: it does not bind to the code\n", d)
+				bad++
+			}
+			for _, u := range rep.Unbound {
+				fmt.Printf("  UNBOUND call-site clauses for %s: the function has no such call\n", u)
 				bad++
 			}
 			tmp, _ := os.MkdirTemp("", "gvc")
@@ -472,6 +489,10 @@ func cmdAll(args []string) {
 		}
 		for _, d := range rep.Dropped {
 			fmt.Printf("DROPPED %s: loop clause at %s does not bind to the code\n", shortFuncKey(k), d)
+			bad++
+		}
+		for _, u := range rep.Unbound {
+			fmt.Printf("UNBOUND %s: call-site clauses for %s, but the function has no such call\n", shortFuncKey(k), u)
 			bad++
 		}
 		for _, d := range rep.Imprecise {
